@@ -359,6 +359,7 @@ HINTS = st.fixed_dictionaries({
     "stray_links": st.sampled_from([False, False, True]),
     "nan": st.sampled_from(["pos", "pos", "neg", "payload", "mixed"]),
     "readonly": st.sampled_from([False, False, False, True]),
+    "text": st.sampled_from(["str", "str", "str", "subclass", "numpy"]),
 })
 PLAIN_HINTS = {"dtype": "<f4", "order": "C", "ints": "py", "scalar": "py"}
 
@@ -660,6 +661,29 @@ def array_to_frames(arrs, scalar=False):
 
 # ---------------------------------------------------------------------------------------
 # build: spec -> library object, by the public route
+class TaggedStr(str):
+    """a str subclass whose renderings are not its content (a (str, Enum) member, a translation proxy, a tagged string): it IS that text"""
+
+    def __str__(self):
+        return "TaggedStr.MEMBER"
+
+    def __repr__(self):
+        return "<TaggedStr.MEMBER>"
+
+    def __format__(self, spec):
+        return "TaggedStr.MEMBER"
+
+
+def _txt(x, h):
+    """a label / name in the str type the hints ask for"""
+    kind = h.get("text", "str")
+    if kind == "subclass":
+        return TaggedStr(x)
+    if kind == "numpy":
+        return np.str_(x)
+    return x
+
+
 def build(spec, hints=None):
     h = hints or PLAIN_HINTS
     return BUILDERS[spec["t"]](spec, h)
@@ -677,7 +701,7 @@ def _b_data3D(s, h):
         # a block switched to the without-links format may still carry a links attribute; that format stores none
         d.links = [(1, 2), (3, 4), (5, 6)]
     for t in s["tracks"]:
-        d.add_track(MarkerTrack(t["label"], frames_to_array(t["frames"], 3, h)))
+        d.add_track(MarkerTrack(_txt(t["label"], h), frames_to_array(t["frames"], 3, h)))
     return d
 
 
@@ -686,7 +710,7 @@ def _b_emg(s, h):
 
     e = EMG(ival(s["frequency"], h), ival(s["nSamples"], h), scal32(s["startTime"], h), EMGBlockFormat(s["format"]))
     for g in s["signals"]:
-        tr = EMGTrack(g["label"], frames_to_array(g["frames"], 1, h))
+        tr = EMGTrack(_txt(g["label"], h), frames_to_array(g["frames"], 1, h))
         if s.get("_chmode") == "auto":
             e.addSignal(tr)
         else:
@@ -721,7 +745,7 @@ def _b_force3D(s, h):
                       arr32(s["trans"], (3,), h), scal32(s["startTime"], h), ForceTorque3DBlockFormat(s["format"]))
     for t in s["tracks"]:
         a = frames_to_array(t["frames"], 9, h)
-        f.add_track(ForceTorqueTrack(t["label"], _ro(_present(a[:, 0:3].copy(), _coupled(h, 0)), h), _ro(_present(a[:, 3:6].copy(), _coupled(h, 1)), h),
+        f.add_track(ForceTorqueTrack(_txt(t["label"], h), _ro(_present(a[:, 0:3].copy(), _coupled(h, 0)), h), _ro(_present(a[:, 3:6].copy(), _coupled(h, 1)), h),
                                      _ro(_present(a[:, 6:9].copy(), _coupled(h, 2)), h)))
     return f
 
@@ -749,7 +773,7 @@ def _b_platCal(s, h):
         size = arr32(p["size"], (2,), h)
         if h.get("scalar") == "py":
             size = tuple(float(x) for x in size)  # upstream's own tests pass a tuple
-        info = ForcePlatformInfo(p["label"], size, arr32(p["position"], (4, 3), h))
+        info = ForcePlatformInfo(_txt(p["label"], h), size, arr32(p["position"], (4, 3), h))
         if s.get("_chmode") == "auto":
             b.add_platform(info)
         else:
@@ -803,7 +827,7 @@ def _b_calib(s, h):
 def _b_optical(s, h):
     from basictdf.tdfOpticalSystem import OpticalChannelData, OpticalSetupBlock, OpticalSetupBlockFormat
 
-    chans = [OpticalChannelData(ival(c["index"], h), c["lens"], c["type"], c["name"], _viewport(c["vp"], h)) for c in s["channels"]]
+    chans = [OpticalChannelData(ival(c["index"], h), _txt(c["lens"], h), _txt(c["type"], h), _txt(c["name"], h), _viewport(c["vp"], h)) for c in s["channels"]]
     return OpticalSetupBlock(OpticalSetupBlockFormat(s["format"]), list(chans))
 
 
@@ -818,7 +842,7 @@ def _b_events(s, h):
             vals = [f32_of(b) for b in ev["values"]]
         else:
             vals = tuple(f32_of(b) for b in ev["values"])
-        t.events.append(Event(ev["label"], vals, EventsDataType(ev["type"])))
+        t.events.append(Event(_txt(ev["label"], h), vals, EventsDataType(ev["type"])))
     return t
 
 
@@ -1090,6 +1114,9 @@ def invalid_variant(spec):
 
 def first_diff(a, b, path=""):
     """path of the first difference between two canonical specs (for messages and keys)"""
+    if isinstance(a, str) and isinstance(b, str):
+        # texts are compared by content, whatever str type carries them (str.__str__ gives the plain content of a subclass instance)
+        return None if str.__str__(a) == str.__str__(b) else (path or "/", str.__str__(a), str.__str__(b))
     if type(a) != type(b) and not (isinstance(a, (int, float)) and isinstance(b, (int, float))):
         return path or "/", a, b
     if isinstance(a, dict):
